@@ -3,8 +3,7 @@
 
 usage: collect_seed.py <seed dir> <id> [--patch <rebased patch>] [--first-detected yes|no|after:<what was strengthened>]
 
-Applies the patch to /repo (which must be clean), runs every property check (quick tier, no evidence written),
-reverts, and writes meta.json: the seeder's meta, the confirmation record (confirm.json from confirm_seed.sh) and
+Applies the patch in a scratch worktree of /repo HEAD, runs every property check against it (quick tier, no evidence written), and writes meta.json: the seeder's meta, the confirmation record (confirm.json from confirm_seed.sh) and
 the detection results.
 """
 import argparse
@@ -31,23 +30,24 @@ def main():
     ap.add_argument("--note", default="")
     a = ap.parse_args()
     patch = a.patch or os.path.join(a.src, "patch.diff")
-    if sh("git -C /repo diff --quiet -- avocado_i2n").returncode != 0:
-        sys.exit("/repo is dirty")
-    r = sh(f"git -C /repo apply {patch}")
-    if r.returncode != 0:
-        sys.exit(f"patch does not apply: {r.stderr}")
+    wt = f"/tmp/wt/collect_{os.getpid()}"
+    if sh(f"git -C /repo worktree add -q --detach {wt} HEAD").returncode != 0:
+        sys.exit("cannot create scratch worktree")
     detected = {}
     try:
+        r = sh(f"cd {wt} && git apply {patch}")
+        if r.returncode != 0:
+            sys.exit(f"patch does not apply: {r.stderr}")
         for mod in sorted(glob.glob(os.path.join(ROOT, "i2nsa/props/c[0-9][0-9].py"))):
             pid = os.path.basename(mod)[:-3].upper()
-            out = sh(f"cd {ROOT} && I2NSA_NO_EVIDENCE=1 /venv/bin/python -m i2nsa check {pid}")
+            out = sh(f"cd {ROOT} && I2NSA_REPO={wt} I2NSA_NO_EVIDENCE=1 /venv/bin/python -m i2nsa check {pid}")
             broken = [l.strip()[len("broken: "):] for l in out.stdout.splitlines() if l.strip().startswith("broken: ")]
             if out.returncode == 1:
                 detected[pid] = [b[:300] for b in broken]
             elif out.returncode == 2:
                 detected[pid] = ["ANALYSIS-ERROR: " + out.stdout.strip().splitlines()[0][:300]]
     finally:
-        sh("git -C /repo checkout -- avocado_i2n")
+        sh(f"git -C /repo worktree remove --force {wt}")
     dst = os.path.join(ROOT, "seeded", a.id)
     os.makedirs(dst, exist_ok=True)
     shutil.copy(patch, os.path.join(dst, "patch.diff"))
@@ -78,7 +78,7 @@ def main():
         "patch_relative_to": "current /repo HEAD (fix commits applied)" if a.patch else meta.get("patch_relative_to", "pinned commit 02a3fa1 (applies on HEAD)"),
         "confirmation": conf,
         "what_i_ran": "tools/confirm_seed.sh: fresh scratch worktree; demo on clean tree (must pass), patch applied, compileall, demo (must fail), "
-                      "full selftests/isolation suite with the patch (269 pass required); then tools/collect_seed.py: patch applied to /repo, all 20 quick checks, reverted",
+                      "full selftests/isolation suite with the patch (269 pass required); then tools/collect_seed.py: patch applied in a scratch worktree of /repo HEAD, all 20 quick checks against it (I2NSA_REPO)",
         "detected_by": detected,
         "detected_by_own_property_check": prop in detected,
         "first_detected": a.first_detected,
